@@ -165,7 +165,10 @@ ADDENDA = {
  "C05": "Every comparison is made at 9 places of the sphere (face axis, face centre, off-axis in every sign combination, a face edge, a face corner) and, for cell levels 1-24, with probes positioned by the cell's own four vertices (each corner sliver, each edge just inside/outside, through the centre).",
  "C07": "Quick tier uses 6 keys (double rotations around a pivot of balance +1 need them).",
  "C11": "Plus a namespace-table sweep: every equality pattern of the four table entries (15 set partitions) x every record codec that takes a table, with reference lists drawn relative to the table.",
- "C13": "Histories include tag edits (plain and searchable) on base features, not only AddFeature.",
+ "C13": "Histories include tag edits (plain and searchable) on base features, not only AddFeature. Every failing part of a merged change is also preceded by a searchable tag edit of each referencing seed feature (path, area, relation).",
+ "C02": "Plus a token-table family: nodes n1, n2, n8 each untagged or carrying one of two values of amenity / shop / waterway / wikidata (729 inputs: every key as first, inner and last run of the token table with one and two values), with key-only and exact queries for those keys.",
+ "C35": "The race pass also runs three concurrent builds from one shared in-memory source per scene.",
+ "C40": "Pairs of the world-level requests are also explored from the state in which world w1 already exists; an outcome counts as the recorded write skew only if the evaluation half leaves the service's worlds unchanged.",
  "C15": "Histories include 12 tag edits; plus a repeat menu (paths revisiting a point, members listed twice) and 126 reference-cycle graphs (relations / collections / both, length 1-3) as static worlds and closed by edit histories.",
  "C16": "Plus kind H: every edit history of 1-2 (chain base: 3) operations on a MutableOverlayWorld over each base, and point versions at boundary locations (origin, equator, prime meridian, poles, antimeridian).",
  "C17": "Plus overlapping files (every distribution of the features over 2-3 files with at least one shared feature, every load order) and probes interleaved with merges (lookups, searches, enumeration after every Merge, judged against the files merged so far).",
